@@ -1019,7 +1019,7 @@ class StructArray(FieldValidator, abc.Sequence, Generic[_S]):
             )
 
         if _VALIDATION_ENABLED.get():
-            if isinstance(value, abc.Iterable) or hasattr(value, "__getitem__"):
+            if isinstance(key, slice):
                 self.validate_many(value)
             else:
                 self.validate_one(value)
